@@ -1,9 +1,10 @@
 SPECIFICATION Spec
 CONSTANTS
   Deviations <- RealDevs
-  RuleSets <- S_keep
-  MaxDepth = 1
+  RuleSets <- T_fn
+  MaxDepth = 2
   Wide = FALSE
+INVARIANT PropertyHolds
 INVARIANT DeviationsExplain
 INVARIANT Emit
 CHECK_DEADLOCK FALSE
